@@ -287,9 +287,12 @@ class PDA:
         new_stack_alphabet = self._stack_alphabet.copy()
         new_stack_alphabet.add(new_stack_symbol)
         new_tf = self._transition_function.copy()
-        new_tf.add_transition(new_start, Epsilon(), new_stack_symbol,
-                              self._start_state, [self._start_stack_symbol,
-                                                  new_stack_symbol])
+        if self._start_state is not None and \
+                self._start_stack_symbol is not None:
+            new_tf.add_transition(new_start, Epsilon(), new_stack_symbol,
+                                  self._start_state,
+                                  [self._start_stack_symbol,
+                                   new_stack_symbol])
         for state in self._states:
             new_tf.add_transition(state, Epsilon(), new_stack_symbol,
                                   new_end, [])
@@ -322,9 +325,12 @@ class PDA:
         new_stack_alphabet = self._stack_alphabet.copy()
         new_stack_alphabet.add(new_stack_symbol)
         new_tf = self._transition_function.copy()
-        new_tf.add_transition(new_start, Epsilon(), new_stack_symbol,
-                              self._start_state, [self._start_stack_symbol,
-                                                  new_stack_symbol])
+        if self._start_state is not None and \
+                self._start_stack_symbol is not None:
+            new_tf.add_transition(new_start, Epsilon(), new_stack_symbol,
+                                  self._start_state,
+                                  [self._start_stack_symbol,
+                                   new_stack_symbol])
         for state in self._final_states:
             for stack_symbol in new_stack_alphabet:
                 new_tf.add_transition(state, Epsilon(), stack_symbol,
@@ -349,6 +355,9 @@ class PDA:
         new_cfg : :class:`~pyformlang.cfg.CFG`
             The equivalent CFG
         """
+        if self._start_state is None or self._start_stack_symbol is None:
+            # Without start configuration, nothing is accepted
+            return cfg.CFG()
         self._cfg_variable_converter = \
             CFGVariableConverter(self._states, self._stack_alphabet)
         start = cfg.Variable("#StartCFG#")
@@ -490,7 +499,7 @@ class PDA:
         else:
             raise NotImplementedError
         start_state_other = other.start_states
-        if len(start_state_other) == 0:
+        if len(start_state_other) == 0 or self._start_state is None:
             return PDA()
         pda_state_converter = _PDAStateConverter(self._states, other.states)
         start_state_other = list(start_state_other)[0]
